@@ -326,9 +326,12 @@ def gen_world(rng, profile=None):
         "idle_time_out_seconds": rng.choice([2 * step, 10 * step, 1800]),
         "charging_search_type": rng.choice(prof.get("search_types", ["nearest_shortest_queue"] * 3 + ["shortest_time_to_charge"])),
         "ideal_fastcharge_soc_limit": rng.choice([0.8, 0.8, 0.5, 1.0]),
+        "base_charging_range_km_threshold": rng.choice(prof.get("base_thr", [100, 100, 5, 0.5, 0])),
+        "human_driver_off_shift_charge_target": rng.choice([1.0, 1.0, 0.6]),
     }
+    speed_kmph = rng.choice(prof.get("speeds", [40.0, 40.0, 40.0, 25.0, 60.0, 13.7]))
     spec = {
-        "network": {"kind": network},
+        "network": {"kind": network, "default_speed_kmph": speed_kmph},
         "sim": sim,
         "dispatcher": disp,
         "mech": mech,
@@ -468,6 +471,8 @@ def materialise(spec, root=None):
         inp["fleets_file"] = "f.yaml"
     kind = spec["network"]["kind"]
     net = {"network_type": "euclidean" if kind == "haversine" else "osm_network"}
+    if spec["network"].get("default_speed_kmph"):
+        net["default_speed_kmph"] = float(spec["network"]["default_speed_kmph"])
     if kind == "graph":
         with open(d / "road_network/g.json", "w") as f:
             json.dump(spec["network"]["graph"], f)
